@@ -135,8 +135,95 @@ Proof.
   destruct (parse32 D (-6)) as [M E] eqn:P. simpl. unfold norm. rewrite G. exact P.
 Qed.
 
-(* THE COARSE-GRID LEMMA (stated, not proved): in [2^-10, 10^-3) the binary32 spacing 2^-33 is
-   coarser than the seven-digit spacing 10^-10, so the float is recovered from its decimal. *)
-Definition coarse_grid_recovers_float_statement : Prop :=
-  forall M, 2 ^ 23 <= M < 2 ^ 24 -> M * 1000 < 2 ^ 33 ->
+(* '%.7g' of a binary32 in [2^-10, 10^-3): seven digits D * 10^-10, within half a unit *)
+Lemma fmt7_coarse M : 2 ^ 23 <= M < 2 ^ 24 -> M * 1000 < 2 ^ 33 ->
+  exists D, fmt7 M (-33) = (D, -10) /\ 9765625 <= D <= 9999999 /\
+            - 2 ^ 33 <= 2 * (M * 10 ^ 10 - D * 2 ^ 33) <= 2 ^ 33.
+Proof.
+  change (2 ^ 23) with 8388608. change (2 ^ 24) with 16777216. change (2 ^ 33) with 8589934592.
+  change (10 ^ 10) with 10000000000. intros HM Hlt.
+  unfold fmt7. assert (Z0 : (M =? 0) = false) by (apply Z.eqb_neq; lia). rewrite Z0.
+  assert (K : log10_floor M (-33) = -4).
+  { unfold log10_floor. assert (L : Z.log2 M = 23).
+    { apply Z.log2_unique; [lia|]. change (2 ^ 23) with 8388608. change (2 ^ (23 + 1)) with 16777216. lia. }
+    rewrite L. change ((23 + -33) * 30102 / 100000 - 2) with (-6).
+    rewrite find_k_step. unfold frac at 1. change (0 <=? -33) with false. cbv iota. change (-6 + 1) with (-5).
+    change (0 <=? -5) with false. cbv iota. change (- -33) with 33. change (- -5) with 5. change (2 ^ 33) with 8589934592. change (10 ^ 5) with 100000.
+    assert (A1 : (M * 100000 <? 8589934592) = false) by (apply Z.ltb_ge; lia). rewrite A1.
+    rewrite find_k_step. unfold frac at 1. change (0 <=? -33) with false. cbv iota. change (-5 + 1) with (-4).
+    change (0 <=? -4) with false. cbv iota. change (- -33) with 33. change (- -4) with 4. change (2 ^ 33) with 8589934592. change (10 ^ 4) with 10000.
+    assert (A2 : (M * 10000 <? 8589934592) = false) by (apply Z.ltb_ge; lia). rewrite A2.
+    rewrite find_k_step. unfold frac at 1. change (0 <=? -33) with false. cbv iota. change (-4 + 1) with (-3).
+    change (0 <=? -3) with false. cbv iota. change (- -33) with 33. change (- -3) with 3. change (2 ^ 33) with 8589934592. change (10 ^ 3) with 1000.
+    assert (A3 : (M * 1000 <? 8589934592) = true) by (apply Z.ltb_lt; lia). rewrite A3. reflexivity. }
+  rewrite K. unfold frac. change (0 <=? -33) with false. cbv iota. change (-4 - 6) with (-10). change (0 <=? -10) with false. cbv iota.
+  change (- -33) with 33. change (- -10) with 10. change (2 ^ 33) with 8589934592. change (10 ^ 10) with 10000000000.
+  pose proof (dhe_spec (M * 10000000000) 8589934592 ltac:(lia) ltac:(lia)) as S. cbv zeta in S.
+  set (D := div_half_even (M * 10000000000) 8589934592) in *.
+  assert (E : (D =? 10000000) = false) by (apply Z.eqb_neq; lia). rewrite E.
+  exists D. change (-4 - 6) with (-10). split; [reflexivity|]. split; lia.
+Qed.
+
+Lemma round_bits_53_coarse D : 9765625 <= D <= 9999999 ->
+  round_bits D (10 ^ 10) 53 = (div_half_even (D * 2 ^ 62) (10 ^ 10), -62).
+Proof.
+  intro H. change (10 ^ 10) with 10000000000. unfold round_bits. change (Z.log2 10000000000) with 33. change (53 - 1) with 52.
+  assert (L : Z.log2 D = 23).
+  { apply Z.log2_unique; [lia|]. change (2 ^ 23) with 8388608. change (2 ^ (23 + 1)) with 16777216. lia. }
+  rewrite L. change (23 - 33 - 52) with (-62). unfold scaled. change (0 <=? -62) with false. cbv iota. change (- -62) with 62.
+  change (2 ^ 62) with 4611686018427387904. change (2 ^ 52) with 4503599627370496. change (2 ^ 53) with 9007199254740992.
+  pose proof (dhe_spec (D * 4611686018427387904) 10000000000 ltac:(lia) ltac:(lia)) as S. cbv zeta in S.
+  set (M := div_half_even (D * 4611686018427387904) 10000000000) in *.
+  assert (A : (D * 4611686018427387904 / 10000000000 <? 4503599627370496) = false) by (apply Z.ltb_ge; apply div_ge; lia).
+  assert (B : (9007199254740992 <=? D * 4611686018427387904 / 10000000000) = false) by (apply Z.leb_gt; apply div_lt; lia).
+  rewrite A, B. change (0 <=? -62) with false. cbv iota. change (- -62) with 62. change (2 ^ 62) with 4611686018427387904. fold M.
+  assert (HM : (M =? 9007199254740992) = false) by (apply Z.eqb_neq; lia). rewrite HM. reflexivity.
+Qed.
+
+Lemma round_bits_24_coarse M53 : 2 ^ 52 <= M53 < 2 ^ 53 - 2 ^ 28 ->
+  round_bits M53 (2 ^ 62) 24 = (div_half_even (M53 * 2 ^ 33) (2 ^ 62), -33).
+Proof.
+  intro H. change (2 ^ 52) with 4503599627370496 in *. change (2 ^ 53) with 9007199254740992 in H.
+  change (2 ^ 28) with 268435456 in H. change (2 ^ 62) with 4611686018427387904. change (2 ^ 33) with 8589934592.
+  unfold round_bits. change (Z.log2 4611686018427387904) with 62. change (24 - 1) with 23.
+  assert (L : Z.log2 M53 = 52).
+  { apply Z.log2_unique; [lia|]. change (2 ^ 52) with 4503599627370496. change (2 ^ (52 + 1)) with 9007199254740992. lia. }
+  rewrite L. change (52 - 62 - 23) with (-33). unfold scaled. change (0 <=? -33) with false. cbv iota.
+  change (- -33) with 33. change (2 ^ 33) with 8589934592. change (2 ^ 23) with 8388608. change (2 ^ 24) with 16777216.
+  pose proof (dhe_spec (M53 * 8589934592) 4611686018427387904 ltac:(lia) ltac:(lia)) as S. cbv zeta in S.
+  set (M24 := div_half_even (M53 * 8589934592) 4611686018427387904) in *.
+  assert (A : (M53 * 8589934592 / 4611686018427387904 <? 8388608) = false) by (apply Z.ltb_ge; apply div_ge; lia).
+  assert (B : (16777216 <=? M53 * 8589934592 / 4611686018427387904) = false) by (apply Z.leb_gt; apply div_lt; lia).
+  rewrite A, B. change (0 <=? -33) with false. cbv iota. change (- -33) with 33. change (2 ^ 33) with 8589934592.
+  fold M24. assert (HM : (M24 =? 16777216) = false) by (apply Z.eqb_neq; lia). rewrite HM. reflexivity.
+Qed.
+
+(* THE COARSE-GRID LEMMA on [2^-10, 10^-3): binary32 spacing 2^-33 is coarser than the
+   seven-digit spacing 10^-10, so the float is recovered from its seven digits *)
+Theorem coarse_grid_recovers_float M : 2 ^ 23 <= M < 2 ^ 24 -> M * 1000 < 2 ^ 33 ->
   let '(D, q) := fmt7 M (-33) in parse32 D q = (M, -33).
+Proof.
+  intros HM Hlt. destruct (fmt7_coarse M HM Hlt) as [D [F [HD S0]]]. rewrite F.
+  unfold parse32. assert (Z0 : (D =? 0) = false) by (apply Z.eqb_neq; lia). rewrite Z0.
+  change (0 <=? -10) with false. cbv iota. change (- -10) with 10.
+  rewrite (round_bits_53_coarse D HD).
+  change (10 ^ 10) with 10000000000 in *. change (2 ^ 33) with 8589934592 in *. change (2 ^ 62) with 4611686018427387904.
+  pose proof (dhe_spec (D * 4611686018427387904) 10000000000 ltac:(lia) ltac:(lia)) as S1. cbv zeta in S1.
+  set (M53 := div_half_even (D * 4611686018427387904) 10000000000) in *.
+  change (0 <=? -62) with false. cbv iota. change (- -62) with 62. change (2 ^ 62) with 4611686018427387904.
+  assert (B53 : 2 ^ 52 <= M53 < 2 ^ 53 - 2 ^ 28).
+  { change (2 ^ 52) with 4503599627370496. change (2 ^ 53) with 9007199254740992. change (2 ^ 28) with 268435456. lia. }
+  pose proof (round_bits_24_coarse M53 B53) as R. change (2 ^ 62) with 4611686018427387904 in R. change (2 ^ 33) with 8589934592 in R.
+  rewrite R.
+  change (2 ^ 23) with 8388608 in HM. change (2 ^ 24) with 16777216 in HM.
+  change (2 ^ 52) with 4503599627370496 in B53. change (2 ^ 53) with 9007199254740992 in B53. change (2 ^ 28) with 268435456 in B53.
+  rewrite (dhe_unique (M53 * 8589934592) 4611686018427387904 M) by lia. reflexivity.
+Qed.
+
+(* hence parse32 o fmt7 is idempotent at every number that loads as a binary32 of that binade *)
+Theorem norm_idempotent_coarse m e M : norm m e = (M, -33) -> 2 ^ 23 <= M < 2 ^ 24 -> M * 1000 < 2 ^ 33 ->
+  norm (fst (norm m e)) (snd (norm m e)) = norm m e.
+Proof.
+  intros N HM Hlt. rewrite N. simpl. unfold norm.
+  pose proof (coarse_grid_recovers_float M HM Hlt) as G. destruct (fmt7 M (-33)) as [D q]. exact G.
+Qed.
